@@ -145,7 +145,8 @@ fn apply(s: &mut GraphStore, o: &Op) -> Row {
 struct Ref {
     nodes: BTreeMap<u64, (BTreeSet<u64>, Props)>,
     rels: BTreeMap<u64, (u64, u64, u64, Props)>,
-    unsorted: bool,
+    /// nodes whose outgoing write-buffer slice got a stub append since the last compaction
+    unsorted: BTreeSet<u64>,
     tstale: bool,
 }
 
@@ -226,7 +227,7 @@ impl Ref {
                     let p = if let Op::CreateEdgeP(_, _, _, p) = o { props(p) } else { Props::new() };
                     self.rels.insert(id, (*a, *b, *t, p));
                     if matches!(o, Op::CreateEdgeStub(..)) {
-                        self.unsorted = true;
+                        self.unsorted.insert(*a);
                         self.tstale = true;
                     }
                     vec![0, id]
@@ -253,11 +254,11 @@ impl Ref {
                 }
             }
             Op::Compact => {
-                self.unsorted = false;
+                self.unsorted.clear();
                 vec![0, 0]
             }
             Op::FinishBulk => {
-                self.unsorted = false;
+                self.unsorted.clear();
                 self.tstale = false;
                 vec![0, 0]
             }
@@ -310,8 +311,11 @@ impl Ref {
                 }
             }
         }
-        if !self.unsorted {
-            for a in 1..=maxn {
+        for a in 1..=maxn {
+            if self.unsorted.contains(&a) {
+                continue;
+            }
+            {
                 for b in 1..=maxn {
                     let all: Row = self.rels.iter().filter(|(_, r)| r.0 == a && r.1 == b).map(|(e, _)| *e).collect();
                     let nonempty = !all.is_empty();
@@ -350,7 +354,7 @@ fn prow_map(m: &PropertyMap) -> Row {
 
 /// Dump every read view of the implementation; `extra` collects consistency failures between
 /// sibling accessors (for_each_* vs *_targets, has_edge vs get_edge, counts vs lists).
-fn impl_dump(s: &GraphStore, maxn: u64, maxe: u64, unsorted: bool, tstale: bool, extra: &mut Vec<String>) -> Vec<Row> {
+fn impl_dump(s: &GraphStore, maxn: u64, maxe: u64, unsorted: &BTreeSet<u64>, tstale: bool, extra: &mut Vec<String>) -> Vec<Row> {
     let mut rows = Vec::new();
     for n in 0..=maxn {
         let id = NodeId::new(n);
@@ -429,8 +433,11 @@ fn impl_dump(s: &GraphStore, maxn: u64, maxe: u64, unsorted: bool, tstale: bool,
         col.sort();
         rows.push(col.into_iter().flatten().collect());
     }
-    if !unsorted {
-        for a in 1..=maxn {
+    for a in 1..=maxn {
+        if unsorted.contains(&a) {
+            continue;
+        }
+        {
             for b in 1..=maxn {
                 let mut all: Row = s.edges_between(NodeId::new(a), NodeId::new(b), None).iter().map(|e| e.as_u64()).collect();
                 all.sort();
@@ -497,6 +504,29 @@ struct Stats {
     edge_reuse: bool,
     stub_finish: bool,
     multi_segment: bool,
+    /// a buffered, non-last (by neighbour) entry of a slice with >= 3 buffered entries was deleted and a
+    /// relationships-between lookup on that source was observed before the next compaction
+    nonlast_delete_then_between: bool,
+    /// a node had >= 3 out-edges in the write buffer when a between-lookup was observed
+    fan3_between: bool,
+}
+
+/// generator health for the relationships-between lookups (called whenever a dump is taken)
+fn note_between(rf: &Ref, buffer_ids: &BTreeSet<u64>, pending_src: Option<u64>, st: &mut Stats) {
+    if let Some(a) = pending_src {
+        if !rf.unsorted.contains(&a) {
+            st.nonlast_delete_then_between = true;
+        }
+    }
+    let mut per_src: BTreeMap<u64, usize> = BTreeMap::new();
+    for (id, r) in &rf.rels {
+        if buffer_ids.contains(id) && !rf.unsorted.contains(&r.0) {
+            *per_src.entry(r.0).or_insert(0) += 1;
+        }
+    }
+    if per_src.values().any(|c| *c >= 3) {
+        st.fan3_between = true;
+    }
 }
 
 /// Run a case. `observe(i, len)` says whether step i is dumped. `next` produces the ops adaptively.
@@ -512,7 +542,8 @@ fn run_case(out: &mut Out, mut next: impl FnMut(&Ref, u64, u64, usize) -> Option
     let mut ops: Vec<Op> = Vec::new();
     let mut steps: Vec<String> = Vec::new();
     let mut bad: Option<String> = None;
-    let mut st = Stats { compact_then_delete_then_reuse: false, frozen_delete: false, node_reuse: false, edge_reuse: false, stub_finish: false, multi_segment: false };
+    let mut st = Stats { compact_then_delete_then_reuse: false, frozen_delete: false, node_reuse: false, edge_reuse: false, stub_finish: false, multi_segment: false, nonlast_delete_then_between: false, fan3_between: false };
+    let mut pending_src: Option<u64> = None;
     let mut compactions = 0u32;
     let mut buffer_since_compact = false;
     let mut frozen_ids: BTreeSet<u64> = BTreeSet::new();
@@ -570,6 +601,18 @@ fn run_case(out: &mut Out, mut next: impl FnMut(&Ref, u64, u64, usize) -> Option
             }
             _ => {}
         }
+        match &o {
+            Op::DeleteEdge(e) if buffer_ids.contains(e) => {
+                if let Some(r) = rf.rels.get(e) {
+                    let slice: Vec<u64> = rf.rels.iter().filter(|(id, x)| x.0 == r.0 && buffer_ids.contains(id)).map(|(_, x)| x.1).collect();
+                    if slice.len() >= 3 && r.1 < *slice.iter().max().unwrap() {
+                        pending_src = Some(r.0);
+                    }
+                }
+            }
+            Op::Compact | Op::FinishBulk => pending_src = None,
+            _ => {}
+        }
         let before_rels: BTreeSet<u64> = rf.rels.keys().cloned().collect();
         let before_nodes: BTreeSet<u64> = rf.nodes.keys().cloned().collect();
         match rf.step(&o, &got) {
@@ -597,9 +640,10 @@ fn run_case(out: &mut Out, mut next: impl FnMut(&Ref, u64, u64, usize) -> Option
         let obs = observe(i, &o) && last_only_len.map_or(true, |_| false);
         let mut d = "None".to_string();
         if obs {
+            note_between(&rf, &buffer_ids, pending_src, &mut st);
             let (dn, de) = (maxn + 1, maxe + 1);
             let mut extra = Vec::new();
-            let rows = impl_dump(&s, dn, de, rf.unsorted, rf.tstale, &mut extra);
+            let rows = impl_dump(&s, dn, de, &rf.unsorted, rf.tstale, &mut extra);
             let exp = rf.dump(dn, de);
             if bad.is_none() {
                 if let Some(x) = extra.first() {
@@ -620,9 +664,10 @@ fn run_case(out: &mut Out, mut next: impl FnMut(&Ref, u64, u64, usize) -> Option
     }
     // "last only" mode: one dump after the final operation
     if last_only_len.is_some() && !steps.is_empty() && bad.as_ref().map_or(true, |b| !b.contains("panic")) {
+        note_between(&rf, &buffer_ids, pending_src, &mut st);
         let (dn, de) = (maxn + 1, maxe + 1);
         let mut extra = Vec::new();
-        let rows = impl_dump(&s, dn, de, rf.unsorted, rf.tstale, &mut extra);
+        let rows = impl_dump(&s, dn, de, &rf.unsorted, rf.tstale, &mut extra);
         let exp = rf.dump(dn, de);
         let o = ops.last().unwrap();
         if bad.is_none() {
@@ -655,6 +700,12 @@ fn run_case(out: &mut Out, mut next: impl FnMut(&Ref, u64, u64, usize) -> Option
     }
     if st.multi_segment {
         out.count("two_or_more_segments");
+    }
+    if st.nonlast_delete_then_between {
+        out.count("nonlast_buffered_delete_then_between");
+    }
+    if st.fan3_between {
+        out.count("between_on_buffered_fan3");
     }
     out.count_n("ops", ops.len() as u64);
     let human = format!("{}", g_list(ops.iter().map(|o| g_op(o, 0))));
@@ -724,7 +775,11 @@ fn main() {
                 last operation (all proper prefixes are cases of their own); random: histories of <=40 (quick) / <=80 (thorough) \
                 operations over <=6 nodes, 3 labels, 3 types, 3 keys, all 16 operations incl. compaction/bulk finish at random \
                 points, every read view dumped after every operation for ids 0..max+1. Non-trivial = more than one operation; \
-                distinct by operation list."
+                fans: five nodes then every sequence of length 1..4 (quick) / 1..5 (thorough) over an 8-operation alphabet \
+                (create 1->2, 1->3, 1->4, 1->5, delete edge 1/2/3, compact), views after the last operation; plus random fans \
+                (a hub with 3..6 buffered out/in edges, deletes biased to first/middle entries), views after every operation. \
+                edges_between/edge_between are observed for every (source, target) pair whose source slice had no stub append \
+                since the last compaction. distinct by operation list."
         .to_string();
 
     // ---- exhaustive small scope ----
@@ -780,6 +835,89 @@ fn main() {
     while rc < cases {
         random_case(&mut out, rc);
         rc += 1;
+    }
+    // ---- fans: one source with several buffered out-edges, deletes of first/middle entries ----
+    // exhaustive: five nodes, then every sequence of length 1..F over create 1->2, 1->3, 1->4, 1->5 (second
+    // type), delete edge 1/2/3, compact; all read views (edges_between for every pair) after the last op
+    let fan_alphabet: Vec<Op> = vec![
+        Op::CreateEdge(1, 2, 0),
+        Op::CreateEdge(1, 3, 0),
+        Op::CreateEdge(1, 4, 0),
+        Op::CreateEdge(1, 5, 1),
+        Op::DeleteEdge(1),
+        Op::DeleteEdge(2),
+        Op::DeleteEdge(3),
+        Op::Compact,
+    ];
+    let fan_base: Vec<Op> = (0..5).map(|i| Op::CreateNode(vec![i % 3])).collect();
+    let fan_len = if args.thorough { 5 } else { 4 };
+    for len in 1..=fan_len {
+        let total = (fan_alphabet.len() as u64).pow(len as u32);
+        for code in 0..total {
+            let mut seq = fan_base.clone();
+            let mut c = code;
+            for _ in 0..len {
+                seq.push(fan_alphabet[(c % fan_alphabet.len() as u64) as usize].clone());
+                c /= fan_alphabet.len() as u64;
+            }
+            let n = seq.len();
+            run_case(&mut out, |_, _, _, i| seq.get(i).cloned(), |_, _| false, Some(n));
+        }
+    }
+    // random fans: a hub with 3..6 out- and in-edges kept in the write buffer (some edges compacted
+    // before), then deletes biased to the first/middle entries mixed with new edges; every view after every op
+    let fan_cases = if args.thorough { 1500u64 } else { 150u64 };
+    for c in 0..fan_cases {
+        let mut r = Rng::for_case(args.seed ^ 0xFA17, c);
+        let nn = r.range(4, 6);
+        let hub = r.range(1, nn);
+        let mut script: Vec<Op> = (0..nn).map(|_| Op::CreateNode(vec![r.below(3)])).collect();
+        if r.chance(1, 3) {
+            for _ in 0..r.range(1, 3) {
+                script.push(Op::CreateEdge(r.range(1, nn), r.range(1, nn), r.below(3)));
+            }
+            script.push(if r.chance(1, 2) { Op::Compact } else { Op::FinishBulk });
+        }
+        for _ in 0..r.range(3, 6) {
+            let t = r.range(1, nn);
+            script.push(if r.chance(1, 5) { Op::CreateEdgeP(hub, t, r.below(3), rand_props(&mut r)) } else { Op::CreateEdge(hub, t, r.below(3)) });
+            if r.chance(1, 2) {
+                script.push(Op::CreateEdge(r.range(1, nn), hub, r.below(3)));
+            }
+        }
+        let tail = r.range(3, 12) as usize;
+        let scripted = script.len();
+        let mut r2 = r.clone();
+        run_case(
+            &mut out,
+            |rf, _, maxe, i| {
+                if i < scripted {
+                    return Some(script[i].clone());
+                }
+                if i >= scripted + tail {
+                    return None;
+                }
+                // deletes of the hub's out/in edges with the smallest / a middle neighbour, new edges, a rare stub elsewhere
+                let mut outs: Vec<(u64, u64)> = rf.rels.iter().filter(|(_, x)| x.0 == hub).map(|(id, x)| (x.1, *id)).collect();
+                let mut ins: Vec<(u64, u64)> = rf.rels.iter().filter(|(_, x)| x.1 == hub).map(|(id, x)| (x.0, *id)).collect();
+                outs.sort();
+                ins.sort();
+                Some(match r2.below(12) {
+                    0..=3 if outs.len() >= 2 => Op::DeleteEdge(outs[r2.below(outs.len() as u64 - 1) as usize].1),
+                    4..=5 if ins.len() >= 2 => Op::DeleteEdge(ins[r2.below(ins.len() as u64 - 1) as usize].1),
+                    6..=8 if maxe < 14 => Op::CreateEdge(hub, r2.range(1, nn), r2.below(3)),
+                    9 if maxe < 14 => Op::CreateEdge(r2.range(1, nn), hub, r2.below(3)),
+                    10 if maxe < 14 => {
+                        let other = if hub == 1 { 2 } else { 1 };
+                        Op::CreateEdgeStub(other, r2.range(1, nn), r2.below(3))
+                    }
+                    11 => Op::Compact,
+                    _ => Op::SetEdgeProp(r2.range(1, maxe + 1), r2.below(3), r2.range(1, 5)),
+                })
+            },
+            |_, _| true,
+            None,
+        );
     }
     // ---- the order named by the property: compaction, delete, id reuse (always present) ----
     for t in 0..3u64 {
